@@ -102,6 +102,9 @@ func applyPart(c *CfgCore, p *Part, owner int) {
 	if p.KP != nil {
 		c.KP = buildKP(p.KP)
 	}
+	if p.Sh != nil {
+		c.Sh = buildSh(p.Sh)
+	}
 	if p.Pairs != nil {
 		c.Pairs = buildPairs(p.Pairs)
 	}
